@@ -247,16 +247,151 @@ impl Prop for ErrorsPinpoint {
     }
 }
 
-pub const RULE: &str = "cases = malformed inputs: FASTQ documents with a defect of each kind (wrong start byte, wrong separator byte, length mismatch, truncation at any byte, dropped line) at a generated record index 0..10, mutated valid documents, soups; FASTA invalid starts behind 0..40 blank LF/CRLF lines; x capacity absolute or aimed at the offending group's offset (+-3) x chunk script x {next, record sets}. Oracle: the first error's variant, line, found byte and lengths equal the reference model's; the id, when given, is the offending record's id; to_string() contains the decimal line number, both lengths, the id and some rendering of the found byte. Inputs without an in-domain format error are skipped (counted). Non-trivial = every evaluated case (all have an error). Distinct = hash(input, capacity, chunks, mode).";
+// ------------------------------------------------------------------------------------------------
+// sub-check 2: format errors met anywhere in a read history (refused growth, policy changes, exact-count set
+// reads, seeks back) still pinpoint the offending record
+
+#[derive(Clone, Debug, Serialize, Deserialize, Hash)]
+pub struct HCase {
+    pub format: Format,
+    pub input: B,
+    pub cap: usize,
+    pub policy: crate::policy::PolKind,
+    pub script: Script,
+    pub ops: Vec<crate::interp::Op>,
+}
+
+pub struct ErrorsInHistories;
+
+fn strip(e: &NErr) -> NErr {
+    match e.clone() {
+        NErr::InvalidStart { line, found, .. } => NErr::InvalidStart { line, found, id: None },
+        NErr::InvalidSep { line, found, .. } => NErr::InvalidSep { line, found, id: None },
+        NErr::UnequalLengths { line, seq, qual, .. } => NErr::UnequalLengths { line, seq, qual, id: None },
+        NErr::UnexpectedEnd { line, .. } => NErr::UnexpectedEnd { line, id: None },
+        x => x,
+    }
+}
+
+impl Prop for ErrorsInHistories {
+    type Case = HCase;
+    fn input_bytes<'a>(&self, c: &'a mut Self::Case) -> Option<&'a mut Vec<u8>> {
+        Some(&mut c.input.0)
+    }
+    fn strategy(&self, _tier: Tier) -> BoxedStrategy<HCase> {
+        use crate::interp::Op;
+        let op = prop_oneof![
+            6 => Just(Op::Next),
+            1 => Just(Op::Owned),
+            4 => (0u8..3).prop_map(Op::ReadSet),
+            6 => (0u8..3, 1u8..8).prop_map(|(s, n)| Op::ReadExact(s, n)),
+            3 => gen::policy_any().prop_map(Op::SetPolicy),
+            1 => any::<u16>().prop_map(Op::Seek),
+            1 => any::<u16>().prop_map(Op::SeekSeen),
+        ];
+        let fa = prop_oneof![3 => fasta_invalid_start(), 1 => gen::byte_soup(Format::Fasta)];
+        let fq = prop_oneof![8 => gen::fastq_doc_defective(10), 2 => gen::fastq_doc_defective(30), 1 => gen::mutated(Format::Fastq, gen::fastq_valid_doc(6))];
+        let per = move |f: Format, input: BoxedStrategy<B>| {
+            let op = op.clone();
+            (gen::input_and_cap(f, input), gen::policy_any(), gen::script(), vec(op, 1..24)).prop_map(move |((input, cap), policy, script, ops)| HCase { format: f, input, cap, policy, script, ops })
+        };
+        boxed(prop_oneof![1 => per.clone()(Format::Fasta, fa.boxed()), 6 => per(Format::Fastq, fq.boxed())])
+    }
+
+    fn check(&self, c: &HCase, ctx: &mut Ctx) -> CheckResult {
+        use crate::driver::{Out, SetOut};
+        use crate::interp::{run_ops_fmt, Ev, RunSpec};
+        let f = crate::light::fmt_name(c.format);
+        let m = Model::build(c.format, &c.input);
+        let want = match &m.term {
+            Terminal::Err(e) => Some(e.clone()),
+            Terminal::End => None,
+            Terminal::Unspecified => {
+                ctx.class("skipped: out-of-domain FASTQ group");
+                return Ok(());
+            }
+        };
+        let spec = RunSpec { input: &c.input, cap: c.cap, policy: c.policy, script: &c.script, ops: &c.ops, model: &m };
+        let t = run_ops_fmt(c.format, &spec);
+        crate::interp_livelock(&t.src, c.format)?;
+        let mut limits_before = 0;
+        let mut exact_limit_nonempty = false;
+        let mut errors = 0;
+        for (si, s) in t.steps.iter().enumerate() {
+            let mut outs: Vec<&NErr> = Vec::new();
+            match &s.ev {
+                Ev::Rec(Out::Err(e)) | Ev::OwnedRec(Out::Err(e)) => outs.push(e),
+                Ev::Set { res: SetOut::Err(e), n, .. } => {
+                    if *e == NErr::BufferLimit && n.is_some() {
+                        exact_limit_nonempty = true;
+                    }
+                    outs.push(e)
+                }
+                Ev::Seek { res: Err(e), .. } => outs.push(e),
+                Ev::Drained(v) => {
+                    for o in v {
+                        if let Out::Err(e) = o {
+                            outs.push(e);
+                        }
+                    }
+                }
+                _ => {}
+            }
+            for e in outs {
+                if *e == NErr::BufferLimit {
+                    limits_before += 1;
+                    continue;
+                }
+                if !e.is_format() {
+                    continue;
+                }
+                errors += 1;
+                let want = match &want {
+                    Some(w) => w,
+                    None => fail!(format!("{}/history/spurious-format-error", f), "step {} ({:?}): {:?} reported, but the input is well-formed", si, s.op, e),
+                };
+                ensure!(
+                    strip(e) == strip(want),
+                    format!("{}/history/{}/wrong-fields", f, want.kind()),
+                    "step {} ({:?}): reported {:?}, the offending record is described by {:?} (capacity {}, {} BufferLimit result(s) earlier in the history)",
+                    si,
+                    s.op,
+                    e,
+                    want,
+                    c.cap,
+                    limits_before
+                );
+                if limits_before > 0 {
+                    ctx.class("format error reported after a refused growth earlier in the history");
+                    if exact_limit_nonempty {
+                        ctx.class("format error reported after an exact-count set read hit BufferLimit");
+                    }
+                }
+                if t.steps[..si].iter().any(|p| matches!(p.ev, Ev::Seek { res: Ok(()), .. })) {
+                    ctx.class("format error reported after a seek");
+                }
+            }
+        }
+        if errors > 0 {
+            ctx.nontrivial(c, c);
+        }
+        Ok(())
+    }
+}
+
+pub const RULE: &str = "cases = malformed inputs: FASTQ documents with a defect of each kind (wrong start byte, wrong separator byte, length mismatch, truncation at any byte, dropped line) at a generated record index 0..10, mutated valid documents, soups; FASTA invalid starts behind 0..40 blank LF/CRLF lines; x capacity absolute or aimed at the offending group's offset (+-3) x chunk script x {next, record sets}. Oracle: the first error's variant, line, found byte and lengths equal the reference model's; the id, when given, is the offending record's id; to_string() contains the decimal line number, both lengths, the id and some rendering of the found byte. Inputs without an in-domain format error are skipped (counted). Sub-check errors-in-histories: the same inputs x capacity x any policy (refusing ones included) x histories of next / records() / read_record_set / read_record_set_exact(n) / set_policy / seek (no source faults): every format error returned by any call has the model's variant, line, found byte and lengths (a well-formed input yields none). Non-trivial = every evaluated case (all have an error) / histories in which a format error was reported. Distinct = hash(input, capacity, chunks, mode).";
 
 pub fn run(tier: Tier) -> i32 {
     let mut run = Run::new("C17", tier, "exploration");
     let p = ErrorsPinpoint;
     run.replays("error-fields", &p);
     run.generated("error-fields", &p, tier.pick(250_000, 4_000_000));
+    let h = ErrorsInHistories;
+    run.replays("errors-in-histories", &h);
+    run.generated("errors-in-histories", &h, tier.pick(150_000, 3_000_000));
     run.finish(RULE, &["reference model M_fa/M_fq defines the true line, byte and lengths", "the message format itself is not prescribed: only the presence of the values is checked"])
 }
 
 pub fn replay(run: &mut Run, file: &std::path::Path) -> Option<bool> {
-    run.replay_file("error-fields", &ErrorsPinpoint, file, true)
+    run.replay_file("error-fields", &ErrorsPinpoint, file, true).or_else(|| run.replay_file("errors-in-histories", &ErrorsInHistories, file, true))
 }
